@@ -187,3 +187,56 @@ def fsm_template(prop, o, f, eng, run_dir):
 
 
 TEMPLATES.append(fsm_template)
+
+
+# ---------------------------------------------------------------------------------------------
+# pure methods on structs with scalar fields (message kind predicates, field accessors): the counterexample is a receiver value;
+# the replay builds it in an in-package test, calls the real method and compares with what the contract demands.
+PURE_TEST = r'''package @PKGNAME@
+
+import "testing"
+
+func TestVerifReplayPure(t *testing.T) {
+	recv := @AMP@@TYPE@{@FIELDS@}
+	got := recv.@METHOD@()
+	t.Logf("real code: (%+v).@METHOD@() = %v; the contract demands %v", recv, got, @DEMANDED@)
+	if got == @DEMANDED@ {
+		t.Skip("VERIF-REPLAY-MODEL-MISMATCH: the real code returns what the contract demands for this receiver")
+	}
+	t.Fatalf("VERIF-REPLAY-CONFIRMED: obligation @OBL@ fails on the real code for this receiver")
+}
+'''
+
+
+def pure_template(prop, o, f, eng, run_dir):
+    pr = f.get("pure_replay")
+    if not pr or not pr.get("file"):
+        return None
+    pkg_dir = os.path.dirname(pr["file"]).replace(REPO.rstrip("/") + "/", "").replace("/repo/", "")
+    # package clause of the file the method lives in
+    pkgname = None
+    try:
+        with open(os.path.join(REPO, pkg_dir, os.path.basename(pr["file"]))) as fh:
+            for line in fh:
+                if line.startswith("package "):
+                    pkgname = line.split()[1].strip()
+                    break
+    except OSError:
+        return None
+    if not pkgname:
+        return None
+    tname = pr["type"].rsplit(".", 1)[-1]
+    demanded = pr["demanded"]
+    if pr["rtype"] not in ("bool", "int", "int64", "uint64"):
+        demanded = "%s(%s)" % (pr["rtype"].rsplit("/", 1)[-1].split(".", 1)[-1] if pr["rtype"].startswith(pr["pkg"]) else pr["rtype"].rsplit("/", 1)[-1], demanded)
+    src = (PURE_TEST.replace("@PKGNAME@", pkgname).replace("@AMP@", "&" if pr["ptr"] else "").replace("@TYPE@", tname)
+           .replace("@FIELDS@", ", ".join(pr["fields"])).replace("@METHOD@", pr["method"]).replace("@DEMANDED@", demanded)
+           .replace("@OBL@", o["name"].replace('"', "'")))
+    r = run_overlay(pkg_dir, "zz_verif_replay_test.go", src, "TestVerifReplayPure")
+    confirmed = r["built"] and "VERIF-REPLAY-CONFIRMED" in r["output"]
+    return {"template": "pure-method", "package_dir": pkg_dir, "test_file": "zz_verif_replay_test.go", "test_name": "TestVerifReplayPure",
+            "source": src, "cmd": r["cmd"], "output": r["output"][-1500:], "fails_on_real_code": confirmed,
+            "counterexample": {"receiver": "%s{%s}" % (tname, ", ".join(pr["fields"])), "demanded": pr["demanded"], "predicted": pr["predicted"]}}
+
+
+TEMPLATES.append(pure_template)
